@@ -59,6 +59,13 @@ CONTRACT(PRE___yd_fixup(d), POST___yd_fixup(RV, d));
 		  : ((ret) < 0 && W5(DEQ_X(dow) - 1) - W5(DEQ_X(dow) + (ret) - 1) == -(b))))
 static int __get_d_equiv(dt_dow_t dow, int b)
 CONTRACT(PRE___get_d_equiv(dow, b), POST___get_d_equiv(RV, dow, b));
+/* number of business days in a run of DUR consecutive days that ENDS on a day with weekday WD (dur < 0: the run of -dur days
+ * that starts the day after, counted negatively): equals the W5 difference over that run */
+#define NB_X(wd) ((int)(wd) + 1400000 - 7)
+#define PRE___get_nbdays(dur, wd) ((wd) >= 1 && (wd) <= 7 && (dur) >= -1000000 && (dur) <= 1000000)
+#define POST___get_nbdays(ret, dur, wd) ((ret) == ((dur) >= 0 ? W5(NB_X(wd)) - W5(NB_X(wd) - (dur)) : -(W5(NB_X(wd) - (dur)) - W5(NB_X(wd)))))
+static int __get_nbdays(int dur, dt_dow_t wd)
+CONTRACT(PRE___get_nbdays(dur, wd), POST___get_nbdays(RV, dur, wd));
 /* business days in a month, n-th business day of a month */
 #define S_BDAYS(y, m) (W5(S_DAISY(y, m, 1) - 1 + S_MDAYS(y, m)) - W5(S_DAISY(y, m, 1) - 1))
 #define PRE___get_bdays(y, m) (V_YEAR((int)(y)) && (m) >= 1 && (m) <= 12)
